@@ -137,6 +137,36 @@ def replay_reps(reps):
     return by_index, dis
 
 
+def tlc_samples(ctx, consts):
+    """G for coefficients of every size: QuantSamples.tla computes (limb arithmetic), per index x binade x slot, one
+    quantisation interval and its first / mid-1 / mid / mid+1 / last point with the design's q and r."""
+    res = tlc.run("QuantSamples", _h.box_cfg("QuantSamples.cfg", **consts), dump=True, workers=16, env=XSS, coverage=False)
+    ctx.add_tlc(res, "interval samples in every binade (QuantSamples, limb arithmetic, -dump)", dict(consts))
+    out = []
+    for st in tlaval.iter_dump(res.dump_path):
+        if st["stage"] == "picked":
+            smp = st["smp"]
+            out.append({"i": st["i"], "b": max(consts["LoBin"], st["i"] // 4) + st["e"], "q": _num(list(smp["q"])), "r": _num(list(smp["r"])), "xs": sorted(set(_num(list(x)) for x in smp["xs"]))})
+    return out
+
+
+def replay_samples(samples):
+    """Call the real functions on TLC's interval points, both signs -> ({index: coefficients}, spec disagreements)"""
+    qz = _mods()
+    by_index = {}
+    dis = 0
+    for smp in samples:
+        i = smp["i"]
+        for x in smp["xs"]:
+            for sg in (1, -1) if x else (1,):
+                q = qz.forward_quant(sg * x, i)
+                r = qz.inverse_quant(q, i)
+                if q != sg * smp["q"] or r != sg * smp["r"]:
+                    dis += 1
+            by_index.setdefault(i, set()).add(x)
+    return {i: sorted(v) for i, v in by_index.items()}, dis
+
+
 # ----------------------------------------------------------------------------- self-test of the binding
 def selftest():
     """Broken implementations (monkeypatched in-process, restored in finally) and a corrupted recorded field must
@@ -202,6 +232,12 @@ def run(ctx):
     if not reps:
         raise RuntimeError("TLC produced no representatives")
     by_index, dis = replay_reps(reps)
+    # (G, all sizes) TLC-chosen interval points in every binade, every index
+    sconsts = dict(MaxI=ctx.pick(255, 300), LoBin=8, Bins=ctx.pick(33, 40), Slots=ctx.pick(2, 6))
+    samples = tlc_samples(ctx, sconsts)
+    if len(samples) != (sconsts["MaxI"] + 1) * sconsts["Bins"] * sconsts["Slots"]:
+        raise RuntimeError("QuantSamples produced %d samples" % len(samples))
+    s_by_index, sdis = replay_samples(samples)
 
     # (T) recorded tables
     n_factors = ctx.pick(300, 1000)
@@ -214,6 +250,15 @@ def run(ctx):
         tid += 1
         jobs.append((tid, i, by_index[i]))
         origin[tid] = ("tlc-class", i)
+    for i in sorted(s_by_index):
+        xs = s_by_index[i] + [-v for v in s_by_index[i] if v]
+        plain = [v for v in xs if abs(v) <= PLAIN_MAX_X // 8] if i <= PLAIN_MAX_INDEX else []
+        big = [v for v in xs if abs(v) > PLAIN_MAX_X // 8] if i <= PLAIN_MAX_INDEX else xs
+        for part in (plain, big):
+            for k in range(0, len(part), 2000):
+                tid += 1
+                jobs.append((tid, i, part[k : k + 2000]))
+                origin[tid] = ("tlc-interval-sample", i)
     for i in range(0, max_index + 1):
         dense = ctx.pick(64, 4096) if i <= PLAIN_MAX_INDEX else 4  # above index 115 small coefficients all quantise to 0
         xs = inputs_for_index(rnd, i, dense, ctx.pick(6, 20), ctx.pick(12, 30), 62 if i <= PLAIN_MAX_INDEX else 90)
@@ -275,12 +320,16 @@ def run(ctx):
             "exhaustive_box": consts,
             "g_box": gconsts,
             "tlc_class_representatives": len(reps),
+            "tlc_interval_samples": {"box": sconsts, "intervals": len(samples), "coefficients": 2 * sum(len(v) for v in s_by_index.values()),
+                                     "in_2^20..2^31": 2 * sum(1 for v in s_by_index.values() for x in v if (1 << 20) <= x < (1 << 31)),
+                                     "points": "first, mid-1, mid, mid+1, last point of the interval, both signs",
+                                     "spec_vs_code_differences": sdis},
             "indices_tabulated": max_index + 1,
             "factor_table_length": n_factors + 1,
             "values_plain_path": nvals - bigvals,
             "values_limb_path": bigvals,
             "quantisation_matrices": len(mrecs),
-            "spec_disagreements": dis + sum(tdis.values()),
+            "spec_disagreements": dis + sdis + sum(tdis.values()),
             "logged_clauses": tdis,
             "binding_selftest": st,
             "apalache": apar,
@@ -295,7 +344,7 @@ def run(ctx):
     )
     ctx.assumptions += [
         "TLC integers are 32-bit: values above 2^25 and indices above 115 are judged with base-2^15 limb arithmetic written in TLA+ (spec/BigNat.tla); the plain design formulas are evaluated for index <= 47 only, beyond that recorded quotients are verified (q*d <= n < (q+1)*d)",
-        "unboundedness (all integers, all indices) is proved for the specification by Apalache; for the code it is sampled (indices 0..255/300, coefficients up to 2^90)",
+        "unboundedness (all integers, all indices) is proved for the specification by Apalache; for the code it is sampled (indices 0..255/300; per index a dense range near 0, bin boundaries, random magnitudes up to 2^90 and TLC-computed interval points -- ends and mid-point neighbourhood -- in every binade from 2^8 (or the first binade with a non-zero quantised value) over 33/40 binades)",
         "'strictly increases from 7 upward' is evaluated from min(7, MINIMUM_DISTINCT_QINDEX) so that lowering the constant below what holds is an alarm while raising it is not",
     ]
 
